@@ -74,6 +74,9 @@ func wantCell(amount string, digits int, thousands bool) []string {
 	return []string{"-" + body}
 }
 
+// commodity names are letters of any script (text cells added with AddText)
+var c17Coms = []string{"CHF", "ÖLFÖNDS", "Ωμ", "X"}
+
 type c17Case struct {
 	Names    []string
 	Indents  []int
@@ -93,7 +96,7 @@ func c17Table(cs c17Case) (string, string, string) {
 	}
 	t.AddSeparatorRow()
 	for i, r := range cs.Rows {
-		row := t.AddRow().AddIndented(cs.Names[i%len(cs.Names)], cs.Indents[i%len(cs.Indents)]).AddText("CHF", table.Left)
+		row := t.AddRow().AddIndented(cs.Names[i%len(cs.Names)], cs.Indents[i%len(cs.Indents)]).AddText(c17Coms[i%len(c17Coms)], table.Left)
 		for _, a := range r {
 			row.AddDecimal(decimal.RequireFromString(a))
 		}
@@ -186,7 +189,7 @@ func c17Journal(drv *core.Driver, qs []string, digits int, k bool) (string, stri
 	body := []jr.Dir{}
 	accs := []string{accChecking, accBaenk, accCash}
 	for i, q := range qs {
-		body = append(body, jr.T("2020-01-31", "x", jr.B(accOpening, accs[i%len(accs)], q, []string{"CHF", "USD"}[i%2])))
+		body = append(body, jr.T("2020-01-31", "x", jr.B(accOpening, accs[i%len(accs)], q, []string{"CHF", "USD", "ÖLFÖNDS"}[i%3])))
 	}
 	all := append(opensPrefix(), body...)
 	drv.Files(map[string]string{"j.knut": jr.RenderAll(all)})
